@@ -47,7 +47,7 @@ theorem step_M1 (cfg : Cfg) (ps : PS) (salt bRand : Bytes) (hp : ps.paired = [])
          .m2 salt (Srp.mk cfg.c.H cfg.G SRP_USER ps.pincode salt (bytesToNat bRand)).Bb, []) := by
   have hd : Tlv.decode ctrlM1 [] = some [(T_SEQUENCE_NUM, [1]), (T_METHOD, [0])] :=
     decode2 _ _ _ _ (by decide)
-  simp [step, hp, hd, lookup, pairingOne, Srp.mk, T_SEQUENCE_NUM, T_METHOD]
+  simp [step, hp, hd, lookup, pairingOne, Srp.mk, Server.getChallenge, T_SEQUENCE_NUM, T_METHOD]
 
 theorem step_M3 (cfg : Cfg) (ps : PS) (srv : Server) (A M salt bRand : Bytes) (hp : ps.paired = [])
     (hv : ps.verifier = some srv) :
@@ -113,7 +113,7 @@ theorem stepLegacy_M1 (cfg : Cfg) (ps : PS) (salt bRand : Bytes) (hp : ps.paired
          .m2 salt (Srp.mk cfg.c.H cfg.G SRP_USER ps.pincode salt (bytesToNat bRand)).Bb, []) := by
   have hd : Tlv.decode ctrlM1 [] = some [(T_SEQUENCE_NUM, [1]), (T_METHOD, [0])] :=
     decode2 _ _ _ _ (by decide)
-  simp [stepLegacy, hp, hd, lookup, pairingOne, Srp.mk, T_SEQUENCE_NUM, T_METHOD]
+  simp [stepLegacy, hp, hd, lookup, pairingOne, Srp.mk, Server.getChallenge, T_SEQUENCE_NUM, T_METHOD]
 
 theorem stepLegacy_M3 (cfg : Cfg) (ps : PS) (srv : Server) (A M salt bRand : Bytes) (hp : ps.paired = [])
     (hv : ps.verifier = some srv) :
